@@ -214,6 +214,10 @@ func (k *Keyed[K, V]) SyncKeys(keys []K, restart bool) (added, removed []K) {
 			v = newRunningRoutine(k, key, routine, data, k.backoffFactory)
 			k.routines[key] = v
 			added = append(added, key)
+		} else if v.deferRemove != nil {
+			// cancel removing this key
+			_ = v.deferRemove.Stop()
+			v.deferRemove = nil
 		}
 
 		routines[key] = v
